@@ -48,10 +48,13 @@ pub struct Case {
     pub default_fate: Fate,
     /// > 0: also pass this many extra nodes (collected through get_closest_nodes on other targets)
     pub extra_rounds: usize,
+    /// 1: the extra nodes come from find_node (fresh, but without a token); 2: find_node(target) runs
+    /// right before the put (the cached closest nodes carry no token)
+    pub tokenless_mode: u8,
 }
 
 fn case_json(c: &Case) -> Value {
-    json!({"class":"scripted-storing-nodes","seed":c.seed.to_string(),"kind":c.kind,"n":c.n,"fates":c.fates.iter().map(|f| format!("{f:?}")).collect::<Vec<_>>(),"tokenless":c.tokenless,"default_fate":format!("{:?}", c.default_fate),"extra_rounds":c.extra_rounds})
+    json!({"class":"scripted-storing-nodes","seed":c.seed.to_string(),"kind":c.kind,"n":c.n,"fates":c.fates.iter().map(|f| format!("{f:?}")).collect::<Vec<_>>(),"tokenless":c.tokenless,"default_fate":format!("{:?}", c.default_fate),"extra_rounds":c.extra_rounds,"tokenless_mode":c.tokenless_mode})
 }
 
 pub fn scenario(r: &mut Report, c: &Case) {
@@ -112,7 +115,8 @@ pub fn scenario(r: &mut Report, c: &Case) {
     for _ in 0..c.extra_rounds {
         let a = x.adht.clone();
         let t = Id::from(rng.array::<20>());
-        if let Some(nodes) = w.block_on(async move { a.get_closest_nodes(t).await }, 120 * SEC) {
+        let tokenless_extras = c.tokenless_mode == 1;
+        if let Some(nodes) = w.block_on(async move { if tokenless_extras { a.find_node(t).await } else { a.get_closest_nodes(t).await } }, 120 * SEC) {
             for n in nodes.iter() {
                 if !extra.iter().any(|e| e.address() == n.address()) {
                     extra.push(n.clone());
@@ -134,6 +138,12 @@ pub fn scenario(r: &mut Report, c: &Case) {
             PutRequestSpecific::AnnounceSignedPeer(AnnounceSignedPeerRequestArguments { info_hash: ih, t: ts, k: sg.k, sig: sg.sig })
         }
     };
+    if c.tokenless_mode == 2 {
+        // a find_node for the very target of the put, just before it
+        let t = *request.target();
+        let a = x.adht.clone();
+        w.block_on(async move { drop(a.find_node(t).await) }, 120 * SEC);
+    }
     let extra_tokens: HashMap<SocketAddrV4, Vec<u8>> = extra.iter().filter_map(|n| n.token().map(|t| (n.address(), t.to_vec()))).collect();
     obs.borrow_mut().stores.clear();
     let lookup_tokens_before: HashMap<usize, Vec<u8>> = obs.borrow().tokens.clone();
@@ -241,6 +251,7 @@ pub fn run(a: &Args) -> Report {
             tokenless: c["tokenless"].as_array().map(|l| l.iter().map(|x| x.as_bool().unwrap_or(false)).collect()).unwrap_or_default(),
             default_fate: pf(c["default_fate"].as_str().unwrap_or("Ack")),
             extra_rounds: c["extra_rounds"].as_u64().unwrap_or(0) as usize,
+            tokenless_mode: c["tokenless_mode"].as_u64().unwrap_or(0) as u8,
         };
         super::guarded(&mut r, case_json(&case), |r| scenario(r, &case));
         return r;
@@ -263,7 +274,7 @@ pub fn run(a: &Args) -> Report {
                 }
                 let mut x = assignment;
                 let fates: Vec<Fate> = (0..n).map(|_| { let f = FATES[(x % 8) as usize]; x /= 8; f }).collect();
-                run_case(&mut r, Case { seed: mix(a.seed, code), kind, fates, tokenless: vec![], n, default_fate: Fate::Ack, extra_rounds: 0 });
+                run_case(&mut r, Case { seed: mix(a.seed, code), kind, fates, tokenless: vec![], n, default_fate: Fate::Ack, extra_rounds: 0, tokenless_mode: 0 });
                 r.count("exhaustive_assignments");
             }
         }
@@ -284,7 +295,12 @@ pub fn run(a: &Args) -> Report {
         let mut fates: Vec<Fate> = (0..n).map(|i| if i < split { major } else { minor }).collect();
         rng.shuffle(&mut fates);
         let tokenless: Vec<bool> = (0..n).map(|_| rng.chance(1, 6)).collect();
-        run_case(&mut r, Case { seed: rng.u64(), kind: rng.usize(4), fates, tokenless, n, default_fate: Fate::Ack, extra_rounds: 0 });
+        let tm = *rng.pick(&[0u8, 0, 1, 2]);
+        let er = if tm == 1 { 2 } else { 0 };
+        if tm != 0 {
+            r.count("tokenless_variants");
+        }
+        run_case(&mut r, Case { seed: rng.u64(), kind: rng.usize(4), fates, tokenless, n, default_fate: Fate::Ack, extra_rounds: er, tokenless_mode: tm });
         r.count("sampled_splits");
     }
     // large replica sets through extra nodes: 254..520 targets
@@ -304,7 +320,7 @@ pub fn run(a: &Args) -> Report {
             continue;
         }
         for kind in [0usize, 1] {
-            run_case(&mut r, Case { seed: mix(a.seed, 0x1a26e + i as u64), kind, fates: fates.clone(), tokenless: vec![], n, default_fate, extra_rounds: rounds });
+            run_case(&mut r, Case { seed: mix(a.seed, 0x1a26e + i as u64), kind, fates: fates.clone(), tokenless: vec![], n, default_fate, extra_rounds: rounds, tokenless_mode: 0 });
             r.count("large_replica_sets");
         }
     }
